@@ -1,6 +1,6 @@
 (* C04 — assembling: the streamed result of a fetch request. *)
 From Coq Require Import Lia ZifyN ZifyNat.
-From C04 Require Import Model ProofsBase ProofsChunk ProofsSealed ProofsFetch.
+From C04 Require Import Model ProofsBase ProofsChunk ProofsSealed ProofsFetch ProofsPos ProofsPhys.
 Open Scope N_scope.
 
 (* a request: distinct 64-bit IDs, timestamps at most B *)
@@ -43,7 +43,7 @@ Qed.
 Lemma frac_fetch_ok : forall B g f ids, 1 <= ipb g -> frac_wf B f -> Forall id_u64 ids ->
   frac_fetch g (compile f) ids = Ok (map (lookup f) ids).
 Proof.
-  intros B g f ids Hg [Hw _] Hu. destruct (f_sealed f) eqn:E.
+  intros B g f ids Hg [Hw [_ [_ Hl]]] Hu. destruct (f_sealed f) eqn:E.
   - apply sealed_fetch_ok; auto.
   - apply active_fetch_ok; auto.
 Qed.
